@@ -658,7 +658,11 @@ def d7_persistence(chk, repo):
            "x-fastest integers (VTK has no Boolean arrays)", v.f, perms["valid_array"][2])
     chk.ob("field.Field.to_vtk::valid-name", "valid" in names.values() and "field" in names.values(),
            "C08.D7", f"array names {names}: reader looks for 'valid' and 'field'", v.f)
-    # VTK reader
+    d7_vtk_reader(chk, repo)
+
+
+def d7_vtk_reader(chk, repo, rule="C08.D7"):
+    """VTK reader: validity permuted like the data, selected by name, used iff present (shared with C16)"""
     v = FV(repo, "io.vtk._FieldIO_VTK._from_vtk", self_type=FIELD)
     for r, a in cm.returned_news(v):
         val, vld = a.get("value"), a.get("valid")
@@ -671,7 +675,7 @@ def d7_persistence(chk, repo):
             td = td or _find_transpose(v, m)
         ok = bool(tv and td and tuple(tv[0][:3]) == tuple(td[0]) and
                   cm.is_identity(cm.perm_compose((2, 1, 0), td[0])) and any(is_const(v.ctx, m, True) for m in members))
-        chk.ob("io.vtk._from_vtk::kw=valid", ok, "C08.D7",
+        chk.ob("io.vtk._from_vtk::kw=valid", ok, rule,
                f"reader passes valid={v.show(vld)}; expected the 'valid' cell array reshaped to reversed(n) and transposed "
                f"by the inverse of the writer's (2,1,0), or True when absent", v.f, r)
     # which cell array is the validity, and when it is used
@@ -708,13 +712,13 @@ def d7_persistence(chk, repo):
                  v.spec("a == 'field' and a != 'valid'", env={"a": arrname})]
         okn = v.eq(v.term(st.value, at=st), idx) and \
             (cond_equiv(v, pt, wants[0]) or cond_equiv(v, pt, wants[1] if label == "valid" else wants[2]))
-        chk.ob(f"io.vtk._from_vtk::{label}-array-selected-by-name", okn, "C08.D7",
+        chk.ob(f"io.vtk._from_vtk::{label}-array-selected-by-name", okn, rule,
                f"the index used to read the {label} array is taken under {v.show(pt)[:200]}; expected exactly for the cell "
                f"array named '{label}'", v.f, st)
         if is_valid_reader:
             pu = path_term(v, used[nm])
             okp = cond_equiv(v, pu, v.spec(f"{nm} is not None", at=used[nm]))
-            chk.ob("io.vtk._from_vtk::validity-read-iff-present", okp, "C08.D7",
+            chk.ob("io.vtk._from_vtk::validity-read-iff-present", okp, rule,
                    f"the validity array is read under {v.show(pu)[:160]}; expected exactly when a 'valid' array was found "
                    "(otherwise all cells are valid)", v.f, used[nm])
     chk.require(len([n_ for n_ in idx_assigns if n_ in used]) >= 2, "_from_vtk: the array indices for 'field' and 'valid' vanished")
@@ -726,7 +730,7 @@ def d7_persistence(chk, repo):
                 for x in ast.walk(c):
                     if isinstance(x, ast.Constant) and isinstance(x.value, str) and x.value in ("field", "valid", "norm"):
                         src_names.add(x.value)
-    chk.ob("io.vtk._from_vtk::array-names", {"field", "valid"} <= src_names, "C08.D7",
+    chk.ob("io.vtk._from_vtk::array-names", {"field", "valid"} <= src_names, rule,
            f"reader distinguishes arrays named {sorted(src_names)}; must recognise 'field' and 'valid'", v.f)
 
 
